@@ -375,11 +375,9 @@ func TestVerifC06(t *testing.T) {
 	verifrt.RunBatches("TestVerifC06", res, nb, 0, 30*time.Minute, "parse.death", func(b int, r *verifrt.Result, cur *verifrt.Current) {
 		dir := vtmp("c06-")
 		defer os.RemoveAll(dir)
-		for k := 0; k < per; k++ {
-			i := b*per + k
-			if !verifrt.WantCase(check, i) {
-				continue
-			}
+		lo, hi := verifrt.CaseRange(check, b, per)
+		for i := lo; i < hi; i++ {
+			k := i - lo
 			rnd := verifrt.NewRand(verifrt.Seed(), fmt.Sprintf("%s/%d", check, i))
 			kind := i % 8
 			var data []byte
